@@ -317,6 +317,20 @@ class Run:
         self.generated[name] = hashlib.sha1(content.encode()).hexdigest()[:12]
         return changed
 
+    def regenerate(self, fn, *args, **kw):
+        """Run an extractor. When the source no longer has the shape it reads (renamed function, rewritten
+        expression, ...), that is a broken tie, not an infrastructure failure: the previous Generated file stays,
+        the failure is recorded as an unmet obligation, and the run goes on to correspondence and search."""
+        try:
+            return fn(self, *args, **kw)
+        except Infra as e:
+            self.proof_failures.append(f"extractor {getattr(fn, '__name__', fn)} could not regenerate from the current source: {e}")
+            self.notes.append(f"Generated file left as it was: {e}")
+            return {}
+        except Exception as e:  # noqa
+            self.proof_failures.append(f"extractor {getattr(fn, '__name__', fn)} failed on the current source: {type(e).__name__}: {e}")
+            return {}
+
     def prove(self, modules: list[str], extra_files: list[str] = ()):
         """Build the property modules (+ driver), audit sources and axioms."""
         files = []
